@@ -256,7 +256,7 @@ var _ = reflect.DeepEqual
 func init() {
 	engine.Register(&engine.Property{
 		ID: "C16", Level: "model_checking",
-		Rule:        "E1 over failures / successes / manual lock+unlock / clock advances collects account states (attempt counters 0..LockAfter, locked, expired lock, never locked, with and without TOTP, outstanding OTPs) for module subsets in both lock/confirm orders, form and JSON; from every distinct state the three pair kinds run on clones from both browsers with and without rm, and status + header map + body + session-jar delta + cookie-jar delta are compared byte for byte; classes = pair kinds executed",
+		Rule: "E1 over failures / successes / manual lock+unlock / clock advances collects account states (attempt counters 0..LockAfter, locked, expired lock, never locked, with and without TOTP, outstanding OTPs) for module subsets in both lock/confirm orders, form and JSON; from every distinct state the three pair kinds run on clones from both browsers with and without rm, and status + header map + body + session-jar delta + cookie-jar delta are compared byte for byte; classes = pair kinds executed",
 		Units: func(tier string) []engine.Unit {
 			scs := c16Scenarios(tier)
 			return e1Units(append(scs, configVariants(scs[:1], tier, "err500", "nomount")...))
